@@ -155,6 +155,13 @@ def _check_artifact(case, ctx, artifact):
     ctx.mon("artifact.model")
     core.set_buffer_size(case.get("bs"))  # whatever the scanner reads in blocks, it reads in blocks of this size
     fh = io.BytesIO(data)
+    if case.get("fileobj") == "mmap" and data:
+        # a memory-mapped file: the usual way to scan a large binary; its seek() returns None before Python 3.13
+        import mmap
+
+        fh = mmap.mmap(-1, len(data))
+        fh.write(data)
+        fh.seek(0)
     if start is None:
         fh.seek(case.get("pos", 0))
         s = case.get("pos", 0)
@@ -187,7 +194,7 @@ def _check_artifact(case, ctx, artifact):
             return
     ctx.ok(fp=("a", data, start, maxrange), nontrivial=bool(truth), case=case,
            classes=(f"artifact:n={min(len(truth), 3)}", "artifact:maxrange" if maxrange is not None else "artifact:nolimit",
-                    "artifact:start=None" if start is None else "artifact:start", f"artifact:bs={case.get('bs')}"))
+                    "artifact:start=None" if start is None else "artifact:start", f"artifact:bs={case.get('bs')}", f"artifact:file={case.get('fileobj', 'bytesio')}"))
 
 
 # ---- plan / generators -----------------------------------------------------------------------------
@@ -295,7 +302,8 @@ def run_shard(shard, ctx):
             data = bytes(data)
             start = rng.choice([0, 0, None, rng.randrange(0, n + 2)])
             maxrange = rng.choice([None, None, rng.randrange(0, n + 2), 0])
-            check_case({"op": "artifact", "data": data, "start": start, "maxrange": maxrange, "pos": rng.randrange(0, n + 1), "bs": bs}, ctx)
+            check_case({"op": "artifact", "data": data, "start": start, "maxrange": maxrange, "pos": rng.randrange(0, n + 1), "bs": bs,
+                        "fileobj": rng.choice(["bytesio", "bytesio", "mmap"])}, ctx)
     else:
         raise ValueError(kind)
 
